@@ -27,6 +27,11 @@
 //	     parser the server runs on the wire: percent-escapes (%2F, %2e%2e, %ff …), raw high bytes, broken escapes.
 //	     First observation: the URL path the handler receives (r.URL.Path, escaped) or "badurl" when net/http
 //	     refuses the request line (the server then answers 400 itself; no handler runs: printed as "badurl 400 0 0").
+//	httpq <flags> <method> <url path> <cred> <query> => <status> <served> <wrote> <written db> <written rp>
+//	     query = "-" | k=v&k=v…  the URL parameters in this order (keys and values escaped here, url.QueryEscape-d into the
+//	     request; u/p of cred are appended): db, rp (absent / empty / plain / with '/', '..', '../x_clean', '../../api/write',
+//	     '%2e%2e' …), precision, consistency, unknown keys, the same key twice. Last two observations: the database and
+//	     retention policy the real handler handed to PointsWriter.WritePoints ("! !" when it was not called).
 //	addroute <preview 0|1> <pattern> => ok|err      Handler.AddRoute / AddPreviewRoute on a fresh handler (method DELETE)
 //
 // Strings are BYTE strings: any token may unescape to bytes that are not valid UTF-8.
@@ -97,10 +102,14 @@ func (f *fakeAuth) GrantSubscriptionAccess(token, db, rp string) error { return 
 func (f *fakeAuth) ListSubscriptionTokens() ([]string, error)          { return nil, nil }
 func (f *fakeAuth) RevokeSubscriptionAccess(token string) error        { return nil }
 
-type pointsWriter struct{ calls int }
+type pointsWriter struct {
+	calls  int
+	db, rp string // arguments of the last call
+}
 
 func (p *pointsWriter) WritePoints(database, retentionPolicy string, consistencyLevel models.ConsistencyLevel, points []models.Point) error {
 	p.calls++
+	p.db, p.rp = database, retentionPolicy
 	return nil
 }
 
@@ -214,6 +223,51 @@ func doHTTP(s *server, method, urlPath, cred, db string) (obs string) {
 		req.Header.Set("Authorization", hv)
 	}
 	return serveAndObserve(s, req, method, urlPath)
+}
+
+// doHTTPQ: like doHTTP, with the complete ordered query string of the request; also reports where the points went.
+func doHTTPQ(s *server, method, urlPath, cred, query string) (obs string) {
+	defer func() {
+		if r := recover(); r != nil {
+			obs = "panic"
+		}
+	}()
+	f := strings.Split(cred, ",")
+	for len(f) < 6 {
+		f = append(f, "%")
+	}
+	var parts []string
+	if query != "-" {
+		for _, e := range strings.Split(query, "&") {
+			i := strings.Index(e, "=")
+			if i < 0 {
+				return "badquery"
+			}
+			parts = append(parts, url.QueryEscape(un(e[:i]))+"="+url.QueryEscape(un(e[i+1:])))
+		}
+	}
+	if u := un(f[4]); u != "" {
+		parts = append(parts, "u="+url.QueryEscape(u))
+	}
+	if p := un(f[5]); p != "" {
+		parts = append(parts, "p="+url.QueryEscape(p))
+	}
+	req := httptest.NewRequest("GET", "http://localhost/", strings.NewReader("m v=1 1\n"))
+	req.Method = method
+	req.URL.Path = urlPath
+	req.URL.RawPath = ""
+	req.URL.RawQuery = strings.Join(parts, "&")
+	if hv, ok := authHeader(f); !ok {
+		return "badtoken"
+	} else if hv != "" {
+		req.Header.Set("Authorization", hv)
+	}
+	calls0 := s.pw.calls
+	o := serveAndObserve(s, req, method, urlPath)
+	if s.pw.calls > calls0 {
+		return o + " " + kit.Esc(s.pw.db) + " " + kit.Esc(s.pw.rp)
+	}
+	return o + " ! !"
 }
 
 // authHeader builds the Authorization header value a credential token describes ("" = none).
@@ -412,6 +466,15 @@ func execCase(ops []string) (out []string) {
 					servers[t[1]] = s
 				}
 				return doHTTP(s, un(t[2]), un(t[3]), t[4], un(t[5]))
+			})
+		case t[0] == "httpq" && len(t) == 6:
+			guard(line, func() string {
+				s, ok := servers[t[1]]
+				if !ok {
+					s = newServer(t[1] == "1" || t[1] == "3", t[1] == "2" || t[1] == "3", fa)
+					servers[t[1]] = s
+				}
+				return doHTTPQ(s, un(t[2]), un(t[3]), t[4], t[5])
 			})
 		case t[0] == "httpraw" && len(t) == 6:
 			guard(line, func() string {
